@@ -476,7 +476,62 @@ class _JoinToLoop(ast.NodeTransformer):
         return tree
 
 
+def _list_acc_to_str(tree):
+    """parts = []; ... parts.append(X) ...; "".join(parts)   ->   parts = ""; ... parts += X ...; parts
+    for a local list that is used in no other way: the accumulating string is what the emission rules read."""
+    count = 0
+    for fn in ast.walk(tree):
+        if not isinstance(fn, ast.FunctionDef):
+            continue
+        inits, appends, joins, other = {}, {}, {}, set()
+        claimed = set()
+        for node in ast.walk(fn):
+            if isinstance(node, ast.Assign) and len(node.targets) == 1 and isinstance(node.targets[0], ast.Name) and isinstance(node.value, ast.List) and not node.value.elts:
+                inits.setdefault(node.targets[0].id, []).append(node)
+                claimed.add(id(node.targets[0]))
+            elif isinstance(node, ast.Expr) and isinstance(node.value, ast.Call) and isinstance(node.value.func, ast.Attribute) and node.value.func.attr == "append" and \
+                    isinstance(node.value.func.value, ast.Name) and len(node.value.args) == 1 and not node.value.keywords:
+                appends.setdefault(node.value.func.value.id, []).append(node)
+                claimed.add(id(node.value.func.value))
+            elif isinstance(node, ast.Call) and isinstance(node.func, ast.Attribute) and node.func.attr == "join" and isinstance(node.func.value, ast.Constant) and \
+                    node.func.value.value == "" and len(node.args) == 1 and not node.keywords and isinstance(node.args[0], ast.Name):
+                joins.setdefault(node.args[0].id, []).append(node)
+                claimed.add(id(node.args[0]))
+        for node in ast.walk(fn):
+            if isinstance(node, ast.Name) and id(node) not in claimed:
+                other.add(node.id)
+            if isinstance(node, ast.arg):
+                other.add(node.arg)
+        names = [n for n in inits if n in appends and n in joins and n not in other]
+        if not names:
+            continue
+
+        class T(ast.NodeTransformer):
+            def visit_Assign(self, node):
+                if len(node.targets) == 1 and isinstance(node.targets[0], ast.Name) and node.targets[0].id in names and isinstance(node.value, ast.List):
+                    return ast.copy_location(ast.Assign(targets=node.targets, value=ast.copy_location(ast.Constant(value=""), node.value)), node)
+                return self.generic_visit(node)
+
+            def visit_Expr(self, node):
+                v = node.value
+                if isinstance(v, ast.Call) and isinstance(v.func, ast.Attribute) and v.func.attr == "append" and isinstance(v.func.value, ast.Name) and \
+                        v.func.value.id in names and len(v.args) == 1:
+                    new = ast.AugAssign(target=ast.Name(id=v.func.value.id, ctx=ast.Store()), op=ast.Add(), value=v.args[0])
+                    return ast.fix_missing_locations(ast.copy_location(new, node))
+                return self.generic_visit(node)
+
+            def visit_Call(self, node):
+                if isinstance(node.func, ast.Attribute) and node.func.attr == "join" and isinstance(node.func.value, ast.Constant) and node.func.value.value == "" and \
+                        len(node.args) == 1 and isinstance(node.args[0], ast.Name) and node.args[0].id in names:
+                    return ast.copy_location(ast.Name(id=node.args[0].id, ctx=ast.Load()), node)
+                return self.generic_visit(node)
+        T().visit(fn)
+        count += len(names)
+    return count
+
+
 def inline_module(tree, modname):
+    n_acc = _list_acc_to_str(tree)
     jt = _JoinToLoop()
     tree = jt.run(tree)
     inl = Inliner(tree, modname)
@@ -484,4 +539,7 @@ def inline_module(tree, modname):
     if jt.n:
         ast.fix_missing_locations(tree)
         inl.report.append("%d string joins over a comprehension read as accumulation loops" % jt.n)
+    if n_acc:
+        ast.fix_missing_locations(tree)
+        inl.report.append("%d list accumulators joined with the empty string read as string accumulators" % n_acc)
     return tree, inl.report
